@@ -476,6 +476,16 @@ class History:
         finally:
             self.in_callback = False
         self.log("job-run", job["kind"], key, mode, self.status_of(key) if key else None)
+        # a finished disk job -- successful or failed -- must leave its dataset in a settled state: a dataset that stays
+        # 'paged_in' / 'paging_out' with no job left to move it on answers 'wait' for ever and its bytes are never given back
+        if key is not None and not stale_hit and not any(j.get("key") == key for j in d.jobs):
+            st_now = self.status_of(key)
+            if st_now in ("paged_in", "paging_out"):
+                self.viol("C09", f"dataset-stuck-in-{st_now}-after-{'failed' if mode != 'ok' else 'finished'}-{job['kind']}-job",
+                          f"{key} is still {st_now} after its page-{job['kind']} job ended ({mode}) and no disk job is left for it: every get answers 'wait' for ever, its {job.get('size', '?')} bytes are never returned")
+                self.viol("C08", f"dataset-stuck-in-{st_now}-after-{'failed' if mode != 'ok' else 'finished'}-{job['kind']}-job", f"{key}: space debited for good")
+                self.failed = True
+                return
         if stale_hit:
             self.after_stale_hit(key)
             return
